@@ -72,8 +72,12 @@ def _varint_value(cx, v, in_domain):
     data = buf.data
     back = aq.Buffer(data=data).pull_uint_var()
     if back != v:
-        sig = "codec:varint:roundtrip-mismatch" if in_domain else "codec:push_uint_var:silent-truncation"
-        res.violation(sig, "push_uint_var(%d) returned normally and stored %s, which reads back as %d" % (v, data.hex(), back), cx.case(),
+        if not in_domain:
+            # v is not a variable-length integer: outside the property's domain, observation only
+            res.count("obs_push_returns_for_out_of_domain_value_var")
+            return "out-of-domain-truncated"
+        res.violation("codec:varint:roundtrip-mismatch",
+                      "push_uint_var(%d) returned normally and stored %s, which reads back as %d" % (v, data.hex(), back), cx.case(),
                       {"value": str(v), "stored": data.hex(), "read_back": str(back)})
         return "mismatch"
     res.count("varint_roundtrips")
@@ -137,8 +141,12 @@ def _fixed_value(cx, bits, v):
     data = buf.data
     back = getattr(aq.Buffer(data=data), "pull_" + name)()
     if back != v:
-        sig = "codec:%s:roundtrip-mismatch" % name if in_domain else "codec:push_%s:silent-truncation" % name
-        res.violation(sig, "push_%s(%d) returned normally and stored %s, which reads back as %d" % (name, v, data.hex(), back), cx.case(),
+        if not in_domain:
+            # v is not an N-bit integer: outside the property's domain, observation only
+            res.count("obs_push_returns_for_out_of_domain_value_%d" % bits)
+            return "out-of-domain-truncated"
+        res.violation("codec:%s:roundtrip-mismatch" % name,
+                      "push_%s(%d) returned normally and stored %s, which reads back as %d" % (name, v, data.hex(), back), cx.case(),
                       {"value": str(v), "stored": data.hex(), "read_back": str(back)})
         return "mismatch"
     res.count(name + "_roundtrips")
